@@ -395,7 +395,9 @@ func (l *Local) Allocate(ctx context.Context, cni *daemon.CNI, request ResourceR
 		return nil, []Trace{{Condition: ResourceTypeMismatch}}
 	}
 
-	if localIPRequest.NetworkInterfaceID != "" && l.eni != nil && l.eni.ID != localIPRequest.NetworkInterfaceID {
+	// a request bound to an eni (the pod already has a record on it) can not be served by another eni,
+	// an empty slot included: it would create a new eni and give the pod a second address
+	if localIPRequest.NetworkInterfaceID != "" && (l.eni == nil || l.eni.ID != localIPRequest.NetworkInterfaceID) {
 		return nil, []Trace{{Condition: NetworkInterfaceMismatch}}
 	}
 
